@@ -135,7 +135,7 @@ REG.contract(
 
 ASSUMES = ["A-PY", "A-INST", "A-DJ"]
 NOT_COVERED = [
-    "SlotNode.render (fill selection, default / required rules, owner instance), FillNode.render, _render_impl's fills, DynamicComponent pass-through and component_post_render's in-order stitching are not yet under contract",
+    "SlotNode.render (fill selection, default / required rules, owner instance), FillNode.render, _render_impl's fills, DynamicComponent pass-through and component_post_render's in-order stitching are not under contract; they are covered only by the BOUNDED stand-in bounded#slots_render_the_fill_addressed_to_them (325 programs x 2 modes x 2 ways of calling, never counted as proved) - Component.render(slots=...) is not exercised",
     "the body render is modelled as user code that leaves the Context balanced and appends the executed fills to the capture list (A-DJ)",
     "composition over the render tree is argued in DESIGN section 3, not machine-checked",
 ]
@@ -236,3 +236,12 @@ REG.contract(
     },
     xensures={"TemplateSyntaxError": {"callers_context_layers_restored": _ctx_restored}, "Any": {"callers_context_layers_restored": _ctx_restored}},
 )
+
+
+def _bounded_slots(tier, repo):
+    from harness.bounded_slots import run
+    return run(repo, 1)
+
+
+REG.bounded_check("bounded#slots_render_the_fill_addressed_to_them", P, _bounded_slots,
+                  note="SlotNode.render / FillNode / _render_impl / component_post_render are not under contract: every component program of nesting depth <= 2 over a 5-component library is rendered for real (tag and dynamic component, both modes, 5 s budget each) and compared with a reference interpreter of the property.  Known findings F-C01a (hang) / F-C01b (fill ignored) delimit the django-mode defect; anything else is a violation")
